@@ -206,6 +206,21 @@ class _Finally(_Ctx):
         return True
 
 
+def maximal_names(tree):
+    """Maximal dotted chains (a.b.c, not also a.b and a) read in an expression."""
+    inner = set()
+    out = set()
+    for x in ast.walk(tree):
+        if isinstance(x, ast.Attribute):
+            inner.add(id(x.value))
+    for x in ast.walk(tree):
+        if isinstance(x, (ast.Attribute, ast.Name)) and id(x) not in inner:
+            d = dotted(x)
+            if d:
+                out.add(d)
+    return out
+
+
 def _is_catch_all(h):
     if h.type is None:
         return True
@@ -607,13 +622,7 @@ class CFG:
         def names_of(test_src, cache={}):
             if test_src not in cache:
                 try:
-                    t = ast.parse(test_src, mode="eval")
-                    s = set()
-                    for x in ast.walk(t):
-                        d = dotted(x) if isinstance(x, (ast.Attribute, ast.Name)) else None
-                        if d:
-                            s.add(d)
-                    cache[test_src] = s
+                    cache[test_src] = maximal_names(ast.parse(test_src, mode="eval"))
                 except SyntaxError:
                     cache[test_src] = set()
             return cache[test_src]
